@@ -15,6 +15,10 @@ EXTENDS SV, Like
 
 NullV == [k |-> "null"]
 ErrV  == [k |-> "err"]
+\* evaluation FAILS (ordering comparison of a number with a string or boolean): a predicate that fails rejects the row; the
+\* failure aborts the predicate left to right (x > 20 OR y > 0 fails on x = "25", y > 0 OR x > 20 does not when y > 0 holds)
+FailV == [k |-> "fail"]
+Bad(x) == x.k = "err" \/ x.k = "fail"
 Rat(n, d) == [k |-> "rat", n |-> n, d |-> d]
 RECURSIVE Gcd(_, _)
 Gcd(a, b) == IF b = 0 THEN a ELSE Gcd(b, a % b)
@@ -36,7 +40,7 @@ StrR(cs) == [k |-> "str", cs |-> cs]
 
 Big(a) == a.n > 30000 \/ a.n < -30000 \/ a.d > 30000
 Arith(op, a, b) ==
-  IF a.k = "err" \/ b.k = "err" THEN ErrV
+  IF Bad(a) \/ Bad(b) THEN ErrV
   ELSE IF a.k = "null" \/ b.k = "null" THEN NullV
   ELSE IF ~IsRat(a) \/ ~IsRat(b) THEN ErrV
   ELSE IF Big(a) \/ Big(b) THEN ErrV          \* beyond TLC's 32-bit integers: not decided
@@ -46,8 +50,11 @@ Arith(op, a, b) ==
          [] op = "/" -> IF b.n = 0 THEN ErrV ELSE Norm(a.n * b.d, a.d * b.n)
 
 \* three-valued comparison result: TRUE / FALSE as bool values, NullV for "unknown"
+MixedKinds(a, b) == (IsRat(a) /\ (IsS(b) \/ IsB(b))) \/ (IsRat(b) /\ (IsS(a) \/ IsB(a)))
 Compare(op, a, b) ==
   IF a.k = "err" \/ b.k = "err" THEN ErrV
+  ELSE IF a.k = "fail" \/ b.k = "fail" THEN FailV
+  ELSE IF MixedKinds(a, b) /\ op \in {"<", "<=", ">", ">="} THEN FailV
   ELSE IF a.k = "null" \/ b.k = "null" THEN NullV
   ELSE IF IsRat(a) /\ IsRat(b) /\ (Big(a) \/ Big(b)) THEN ErrV
   ELSE IF IsRat(a) /\ IsRat(b) THEN
@@ -96,7 +103,7 @@ Call(f, xs) ==
   LET a == IF Len(xs) >= 1 THEN xs[1] ELSE NullV
       b == IF Len(xs) >= 2 THEN xs[2] ELSE NullV
       c == IF Len(xs) >= 3 THEN xs[3] ELSE NullV IN
-  IF \E i \in 1..Len(xs) : xs[i].k = "err" THEN ErrV
+  IF \E i \in 1..Len(xs) : Bad(xs[i]) THEN ErrV
   ELSE CASE f = "abs"    -> IF IsRat(a) THEN Rat(Abs(a.n), a.d) ELSE ErrV
          [] f = "floor"  -> IF IsRat(a) THEN Rat(Floor(a), 1) ELSE ErrV
          [] f \in {"ceil", "ceiling"} -> IF IsRat(a) THEN Rat(Ceil(a), 1) ELSE ErrV
@@ -137,7 +144,7 @@ Call(f, xs) ==
          [] f = "if_null"  -> IF a.k # "null" THEN a ELSE b
          [] f = "null_if"  -> IF a.k = "null" THEN NullV
                               ELSE IF b.k = "null" THEN a
-                              ELSE LET e == Compare("=", a, b) IN IF e.k = "err" THEN ErrV ELSE IF IsTrue(e) THEN NullV ELSE a
+                              ELSE LET e == Compare("=", a, b) IN IF Bad(e) THEN ErrV ELSE IF IsTrue(e) THEN NullV ELSE a
          [] f = "is_null"     -> BoolR(a.k = "null")
          [] f = "is_not_null" -> BoolR(a.k # "null")
          [] f = "is_numeric"  -> IF a.k = "opaque" THEN ErrV ELSE BoolR(IsRat(a))
@@ -156,11 +163,15 @@ Eval(e, row) ==
     [] e.t = "bin"  -> Arith(e.op, Eval(e.a, row), Eval(e.b, row))
     [] e.t = "cmp"  -> Compare(e.op, Eval(e.a, row), Eval(e.b, row))
     [] e.t = "and"  -> LET x == Eval(e.a, row)  y == Eval(e.b, row) IN
-                       IF x.k = "err" \/ y.k = "err" THEN ErrV ELSE BoolR(IsTrue(x) /\ IsTrue(y))
+                       IF x.k = "err" \/ y.k = "err" THEN ErrV
+                       ELSE IF x.k = "fail" THEN FailV ELSE IF ~IsTrue(x) THEN BoolR(FALSE)
+                       ELSE IF y.k = "fail" THEN FailV ELSE BoolR(IsTrue(y))
     [] e.t = "or"   -> LET x == Eval(e.a, row)  y == Eval(e.b, row) IN
-                       IF x.k = "err" \/ y.k = "err" THEN ErrV ELSE BoolR(IsTrue(x) \/ IsTrue(y))
-    [] e.t = "not"  -> LET x == Eval(e.a, row) IN IF x.k = "err" THEN ErrV ELSE BoolR(~IsTrue(x))
-    [] e.t = "isnull" -> LET x == Eval(e.a, row) IN IF x.k = "err" THEN ErrV ELSE BoolR((x.k = "null") # e.neg)
+                       IF x.k = "err" \/ y.k = "err" THEN ErrV
+                       ELSE IF x.k = "fail" THEN FailV ELSE IF IsTrue(x) THEN BoolR(TRUE)
+                       ELSE IF y.k = "fail" THEN FailV ELSE BoolR(IsTrue(y))
+    [] e.t = "not"  -> LET x == Eval(e.a, row) IN IF Bad(x) THEN x ELSE BoolR(~IsTrue(x))
+    [] e.t = "isnull" -> LET x == Eval(e.a, row) IN IF Bad(x) THEN ErrV ELSE BoolR((x.k = "null") # e.neg)
     [] e.t = "like" -> LET x == Eval(e.a, row) IN
                        IF x.k = "null" THEN NullV
                        ELSE IF ~IsS(x) THEN ErrV
@@ -173,12 +184,12 @@ Eval(e, row) ==
 CaseEval(ws, e, row, i) ==
   IF i > Len(ws) THEN (IF "else" \in DOMAIN e THEN Eval(e.else, row) ELSE NullV)
   ELSE LET c == Eval(ws[i].c, row) IN
-       IF c.k = "err" THEN ErrV
+       IF Bad(c) THEN ErrV
        ELSE IF IsTrue(c) THEN Eval(ws[i].r, row) ELSE CaseEval(ws, e, row, i + 1)
 SCaseEval(x, ws, e, row, i) ==
   IF i > Len(ws) THEN (IF "else" \in DOMAIN e THEN Eval(e.else, row) ELSE NullV)
   ELSE LET c == Compare("=", x, Eval(ws[i].c, row)) IN
-       IF c.k = "err" THEN ErrV
+       IF Bad(c) THEN ErrV
        ELSE IF IsTrue(c) THEN Eval(ws[i].r, row) ELSE SCaseEval(x, ws, e, row, i + 1)
 
 \* does engine value v (SV) equal reference value x?  booleans of comparisons may surface as bool
